@@ -242,7 +242,8 @@ def _parse_output(res: TlcResult) -> None:
     m = _RE_DEPTH.search(res.out)
     if m:
         res.depth = int(m.group(1))
-    m = _RE_INV.search(res.out)
+    m = _RE_INV.search(res.out) or \
+        re.search(r'The invariant of (\S+) is equal to FALSE', res.out)
     if m:
         res.violated = m.group(1)
     else:
